@@ -434,12 +434,15 @@ func (d *badgerNodeDB) GetWriteLog(ctx context.Context, startRoot, endRoot node.
 								return node.Root{}, nil, nil
 							}
 
-							key := nextItem.logKeys[index]
+							// The path was collected from the end root backwards; the logs have to
+							// be streamed in the order in which they were applied.
+							pos := len(nextItem.logKeys) - 1 - index
+							key := nextItem.logKeys[pos]
 							root := node.Root{
 								Namespace: endRoot.Namespace,
 								Version:   endRoot.Version,
-								Type:      nextItem.logRoots[index].Type(),
-								Hash:      nextItem.logRoots[index].Hash(),
+								Type:      nextItem.logRoots[pos].Type(),
+								Hash:      nextItem.logRoots[pos].Hash(),
 							}
 
 							item, err := tx.Get(key)
